@@ -15,6 +15,9 @@ CLAIMED = {
              ref='DESIGN.md section 4 C07'),
  'C11': dict(text='Same symbolic explorations as C01 with the C11 assertions: Boolean-closure connectivity of the matrix after every accepted swap and at return (connected / strongly connected 4-node supports, symbolic weights and draws), BCTParamError on every path for disconnected or asymmetric input, lattice cost never increased for a caller-supplied D (symbolic weights with circular D; symbolic D with unit weights), and the symmetric symbolic mask of randomize_graph_partial_und respected.',
              ref='DESIGN.md section 4 C11'),
+ 'C05': dict(text='Non-interference between labelled random streams, per seed-accepting routine (30 routines): inside bct, np.random is a stub whose global generator raises when touched and whose RandomState constructor reports each construction. With a generator object as seed no construction and no global draw may occur on any explored path; with an integer seed exactly one generator is built from it (nested calls forward the object) and the global stream stays untouched; hence every explored result is a function of arguments and the one permitted stream. get_rng contract checked separately. Replays compare numpy global state before/after and int seed vs RandomState(int) on the real code.',
+             ref='DESIGN.md section 4 / harness/c05.py',
+             technique='bounded dynamic symbolic execution with labelled symbolic random streams (reachability of a forbidden draw / construction decided per path by z3-checked feasibility), replay on the real code'),
  'C06': dict(text='randmio_und_signed / randmio_dir_signed run on fully symbolic signed matrices (every off-diagonal entry an unconstrained real, the randint(n**4) draw symbolic): per-node positive/negative in/out degree, signed weight multisets, empty diagonal and symmetry are proved on every path; null_model_*_sign run on enumerated signed matrices with symbolic draws and a recording np.corrcoef stub.',
              ref='DESIGN.md section 4 C06'),
  'C13': dict(text='For 80+ public functions x enumerated argument templates x option variants, every array argument carries an unconstrained symbolic diagonal; after the call (return or exception) z3 proves cell by cell that the argument still holds its original terms on every explored path (path cap per case); a concrete non-zero diagonal variant backs up functions whose dependence on the diagonal is non-linear.',
@@ -43,7 +46,6 @@ CLAIMED = {
              ref='DESIGN.md section 4 C20'),
 }
 NA = {
- 'C05': 'not built in the time available: encodable with this engine (two labelled symbolic random streams + reachability of a global draw) but no harness exists; not claimed rather than claimed weakly (DESIGN.md section 8)',
  'C18': 'solver-based checking does not apply: mean_first_passage_time, subgraph_centrality and eigenvector_centrality_und are LAPACK eigen-decompositions / inverses in floating point; no contract stub for eig/inv is expressible in the SMT theories available, and the degenerate-eigenspace concern has no counterpart in an exact-real model; findwalks/pagerank alone are a fragment (DESIGN.md section 8)',
  'C19': 'solver-based checking does not apply usefully: nbs_bct takes square roots of data and re-draws whole subject relabellings, so data and relabellings must be enumerated and only a threshold stays symbolic (the guidance calls this a weak target); not built (DESIGN.md section 8)',
 }
